@@ -105,6 +105,7 @@ def run_c05(tier):
     variants = [{"mode": "c05", "program": "evaluate"}, {"mode": "c05", "program": "assemble+compute"}]
     return keval.run("C05", tier, families=["safety", "handback"], worker=kprog.run_task, variants=variants,
                      task_filter=_c05_filter if tier == "quick" else None,
+                     extra=lambda rep, coverage: __import__("vlib.checks.c05_step", fromlist=["run"]).run(rep),
                      confirm_fn=confirm, validate=False, functions=FUNCS, validator=validate_asan,
                      extra_assumptions=["element counts fit int32 (dimensions <= D)",
                                         "allocation failure is not modelled",
